@@ -16,7 +16,11 @@ package scen
 // "timeout" regularly fall on the same fake instant; timed-out callers immediately
 // issue their next request, which is what recycles pooled response channels and
 // (variant "small": contextPoolSize=2) pooled ReceiveContexts into a new Ask while
-// the previous responder may still be about to answer.
+// the previous responder may still be about to answer. Some responders are spawned
+// WithStashing: they stash a request when it first arrives and answer it when it is
+// re-delivered after Unstash/UnstashAll (the reply travels through the stash copy of
+// the context while the original goes back to the pool); plain Tells, whose
+// handlers may call Response too (a documented no-op), are mixed among the asks.
 //
 // Oracle (over the recorded calls and the responders' "respond" events):
 //  1. a call returns an error or a non-nil reply, never (nil, nil);
@@ -83,6 +87,43 @@ type c15State struct {
 	resp    []c15Target
 	callers []c15Target
 	calls   []*c15Call
+	stasher map[string]bool // responders spawned WithStashing
+	seen    map[int]bool    // stash-first requests already stashed once
+}
+
+// stashScript: the responder stashes the request when it first sees it and answers
+// it when it is delivered again after an Unstash/UnstashAll (the reply then goes
+// through the stash copy of the ReceiveContext, the original returns to the pool).
+func (st *c15State) stashScript(tag int) []Op {
+	return []Op{{K: OpFunc, F: func(rc *actor.ReceiveContext, p *Probe) {
+		if !st.seen[tag] {
+			st.seen[tag] = true
+			p.S.Ev(Ev{Actor: p.Name, Inc: p.Inc, Kind: "stash", Tag: tag})
+			rc.Stash()
+			return
+		}
+		p.S.Ev(Ev{Actor: p.Name, Inc: p.Inc, Kind: "respond", Tag: tag, Aux: "after-unstash"})
+		rc.Response(&Reply{Tag: tag, From: p.Name, Inc: p.Inc})
+	}}}
+}
+
+// noiseTell sends a plain Tell; its handler may call Response too (documented
+// no-op for a Tell) and may release the responder's stash.
+func (st *c15State) noiseTell(t, k int) {
+	c := st.c
+	to := st.resp[c.W.Draw(len(st.resp))]
+	cmd := &Cmd{Tag: c.Seq(), From: t, Seq: 1000 + k}
+	switch c.W.Draw(3) {
+	case 1:
+		cmd.Ops = []Op{{K: OpRespond}}
+	case 2:
+		if st.stasher[to.name] {
+			cmd.Ops = []Op{{K: OpUnstashAll}, {K: OpRespond}}
+		} else {
+			cmd.Ops = []Op{{K: OpYield, N: 1}, {K: OpRespond}}
+		}
+	}
+	_ = actor.Tell(st.s.Ctx, to.pid, cmd)
 }
 
 var c15Grid = []time.Duration{time.Millisecond, 2 * time.Millisecond, 3 * time.Millisecond}
@@ -159,10 +200,14 @@ func (st *c15State) doCall(t, k int) {
 	var d0 time.Duration
 	for i := 0; i < n; i++ {
 		ops, d := c15Script(c)
+		cmd := &Cmd{Tag: c.Seq(), From: t, Seq: k, Ops: ops}
+		if st.stasher[to.name] && c.W.Draw(3) == 1 {
+			cmd.Ops, d = st.stashScript(cmd.Tag), time.Millisecond
+			c.Probe("ask-stash-first")
+		}
 		if i == 0 {
 			d0 = d
 		}
-		cmd := &Cmd{Tag: c.Seq(), From: t, Seq: k, Ops: ops}
 		msgs = append(msgs, cmd)
 		tags = append(tags, cmd.Tag)
 	}
@@ -225,8 +270,11 @@ func (st *c15State) doCall(t, k int) {
 
 func c15Run(c *Ctx) {
 	s := StartSys(c, "c15", sysOpts(c)...)
-	st := &c15State{c: c, s: s}
+	st := &c15State{c: c, s: s, stasher: map[string]bool{}, seen: map[int]bool{}}
 	c.state = st
+	// defined pool state at the start of a run (the pool is a package variable and
+	// outlives runs): blank, or looking as after ~contextPoolSize answered Asks
+	actor.VerifResetContextPool(c.W.Draw(2) == 1)
 	nresp := 1 + c.W.Draw(2)
 	var names []string
 	// The blocking BoundedMailbox is left out: callers that Ask from inside a
@@ -237,13 +285,21 @@ func c15Run(c *Ctx) {
 	for i := 0; i < nresp; i++ {
 		mb := mbs[c.W.Draw(len(mbs))]
 		name := fmt.Sprintf("r%d", i)
-		_, pid, err := s.Spawn(name, append(mb.Opt(), actor.WithLongLived())...)
+		opts := append(mb.Opt(), actor.WithLongLived())
+		if c.W.Draw(3) == 1 {
+			opts = append(opts, actor.WithStashing())
+			st.stasher[name] = true
+			name2 := name + ":" + mb.Name + "+stash"
+			names = append(names, name2)
+		} else {
+			names = append(names, name+":"+mb.Name)
+		}
+		_, pid, err := s.Spawn(name, opts...)
 		if err != nil {
 			c.Fail("spawn-failed", name, "%v", err)
 			return
 		}
 		st.resp = append(st.resp, c15Target{name, pid})
-		names = append(names, name+":"+mb.Name)
 	}
 	ncall := 1 + c.W.Draw(2)
 	for i := 0; i < ncall; i++ {
@@ -267,10 +323,24 @@ func c15Run(c *Ctx) {
 				switch c.W.Draw(6) {
 				case 1:
 					Sleep(time.Duration(1+c.W.Draw(2)) * time.Millisecond)
-				case 2:
+				case 2, 3:
 					// plain tells recycle pooled contexts too
-					to := st.resp[c.W.Draw(len(st.resp))]
-					_ = actor.Tell(s.Ctx, to.pid, &Cmd{Tag: c.Seq(), From: t, Seq: 1000 + k})
+					st.noiseTell(t, k)
+				}
+			}
+		})
+	}
+	if len(st.stasher) > 0 {
+		// releases the stashes on the time grid (stashed asks are answered on re-delivery)
+		nun := 4 + c.W.Draw(6)
+		fns = append(fns, func() {
+			for k := 0; k < nun; k++ {
+				Sleep(time.Millisecond + time.Duration(c.W.Draw(3)-1))
+				for _, r := range st.resp {
+					if st.stasher[r.name] {
+						// UnstashAll only: Unstash on an empty stash records an error and hands the responder to its supervisor
+						_ = actor.Tell(s.Ctx, r.pid, &Cmd{Tag: c.Seq(), From: 99, Seq: k, Ops: []Op{{K: OpUnstashAll}}})
+					}
 				}
 			}
 		})
